@@ -41,6 +41,8 @@ RULE = (
     "(b3) one cache fed by paths that extend_path() different pre-states (different inherited constraints, optional slice, the same "
     "hash-consed body conditions, second body condition through branch()/activate()): tracked ids == all condition ids and cache-on == "
     "cache-off == z3 per query; "
+    "(b5) paths that need refinement (mul/div/mod by a symbolic operand; really unsat and really sat after refinement) through the real "
+    "solve_end_to_end with a non-empty cache: cache-on == cache-off == truth under exact EVM operations; "
     "(b4) a scripted solver front-end (vlib/stub_solver.py) whose first unsat reply carries an empty core `()`, no core line, or a core "
     "with an error line, followed by satisfiable queries answered by real z3: nothing degenerate is stored and no later query is "
     "answered from the cache; "
@@ -599,6 +601,59 @@ def correspond(ctx):
         on.close()
         off.close()
         del kept, pres
+
+    # =============================================================== (b5) paths whose answer needs refinement
+    # The first query is sat with an f_evm_ model, so solve_end_to_end solves the refined query; cache on vs cache off vs the truth under
+    # the exact EVM operations (really unsat after refinement, and really sat after refinement).
+    from halmos.sevm import f_div, f_mod, f_mul
+
+    rx, ry = z3.BitVec("p_rx_uint256", 256), z3.BitVec("p_ry_uint256", 256)
+
+    def kv(n):
+        return z3.BitVecVal(n, 256)
+
+    def udiv0(a_, b_):
+        return z3.If(b_ == 0, kv(0), z3.UDiv(a_, b_))
+
+    def urem0(a_, b_):
+        return z3.If(b_ == 0, kv(0), z3.URem(a_, b_))
+
+    ref_cases = [
+        ("mul-unsat", [f_mul[256](rx, ry) == kv(15), rx == kv(3), ry != kv(5)], [rx * ry == kv(15), rx == kv(3), ry != kv(5)]),
+        ("mul-sat", [f_mul[256](rx, ry) == kv(15), rx == kv(3)], [rx * ry == kv(15), rx == kv(3)]),
+        ("div-by-zero-unsat", [f_div(rx, ry) == kv(3), ry == kv(0)], [udiv0(rx, ry) == kv(3), ry == kv(0)]),
+        ("div-sat", [f_div(rx, ry) == kv(3), ry == kv(4), z3.ULT(rx, kv(14))], [udiv0(rx, ry) == kv(3), ry == kv(4), z3.ULT(rx, kv(14))]),
+        ("mod-unsat", [f_mod[256](rx, ry) == kv(7), ry == kv(5)], [urem0(rx, ry) == kv(7), ry == kv(5)]),
+        ("mod-zero-unsat", [f_mod[256](rx, ry) == rx, ry == kv(0), rx == kv(9)], [urem0(rx, ry) == rx, ry == kv(0), rx == kv(9)]),
+        ("mod-sat", [f_mod[256](rx, ry) == kv(2), ry == kv(5), rx == kv(12)], [urem0(rx, ry) == kv(2), ry == kv(5), rx == kv(12)]),
+    ]
+    for ri, (rname, conds_abs, conds_exact) in enumerate(ref_cases):
+        for sname in ("yices", "z3"):
+            if ctx.tier == "quick" and (ri + (sname == "z3")) % 2:
+                continue
+            on, off = Pipeline(eng, True, solver_cmds[sname]), Pipeline(eng, False, solver_cmds[sname])
+            # an earlier unsat query of the same function, so that the cache is not empty
+            p0 = Path(mk_solver(eng.base_args))
+            p0.append(z3.ULT(rx, kv(5)))
+            p0.append(z3.UGT(rx, kv(10)))
+            on.query(p0)
+            pr = Path(mk_solver(eng.base_args))
+            for c in conds_abs:
+                pr.append(c)
+            t = truth0(conds_exact)
+            v_on = on.query(pr)[0]
+            v_off = off.query(pr)[0]
+            ctx.case(f"refined|{rname}|{sname}")
+            ctx.count(f"refined:{rname}:{sname}:on={v_on}:off={v_off}:truth={t}")
+            if v_on not in DEF or v_off not in DEF:
+                ctx.count(f"solver-timing:on={v_on}:off={v_off}:truth={t}")
+            elif v_on != v_off or (t in DEF and v_on != t):
+                ctx.violation("unsat-core-cache:refined-query:verdict-differs",
+                              f"{rname} ({sname}): conditions {[str(c)[:60] for c in conds_abs]} need refinement; with --cache-solver solve_end_to_end answers {v_on}, "
+                              f"without it {v_off}; under the exact EVM operations the path is {t}", {"kind": "refined", "case": rname, "solver": sname})
+            on.close()
+            off.close()
+            del p0, pr
 
     # =============================================================== (b4) degenerate cores from the solver / front-end
     # The first unsat reply of a function carries an empty core `()` (what z3 prints when no assertion is named, or a front-end that
